@@ -342,8 +342,12 @@ func writeEvidence(prop *Property, tier string, seed int64, results []*HarnessRe
 		"assumptions": dedupe(assumptions), "wall_s": wall.Seconds(), "violations": violations,
 	}
 	b, _ := json.MarshalIndent(ev, "", " ")
-	os.MkdirAll(filepath.Join(verifDir, "evidence"), 0o755)
-	os.WriteFile(filepath.Join(verifDir, "evidence", prop.ID+".json"), b, 0o644)
+	dir := filepath.Join(verifDir, "evidence")
+	if d := os.Getenv("GOSX_EVIDENCE_DIR"); d != "" {
+		dir = d // runs against a scratch copy of the repository (seeded changes) must not touch the committed evidence
+	}
+	os.MkdirAll(dir, 0o755)
+	os.WriteFile(filepath.Join(dir, prop.ID+".json"), b, 0o644)
 }
 
 func witnessMap(ws []WDraw) []string {
